@@ -29,6 +29,22 @@ def c03(report, rng, tier, findings):
                       select_all=1.0, empty_domain=0.0)
         base = gen.gen_case(rng, cfg, f'c{i}')
         conj = base['cond'][0] if len(base['cond']) == 1 else ('and',) + tuple(base['cond'])
+        if nv >= 2 and rng.random() < 0.2:
+            # template: a conjunction that will be NEGATED under outer bindings; its first conjunct is a boolean call /
+            # attribute / predicate on a variable not bound outside, its second conjunct uses the outer variable only
+            cfg = gen.Cfg(n_vars=(2, 2), n_objs=(3, 5), depth=1, select_all=1.0, empty_domain=0.0, share_domain=0.5)
+            base = gen.gen_case(rng, cfg, f'c{i}')
+            ids_ = [v[0] for v in base['vars']]
+            p_, s_ = rng.sample(ids_, 2)
+            g_ = gen.CondGen(rng, cfg, ids_)
+            g_.var_ids = [p_]
+            a1, a2 = g_.atom(), g_.atom()
+            first = rng.choice([('truth', ('call', 'is_even', (), ('var', s_))), ('truth', ('attr', 'flag', ('var', s_))),
+                                ('pred', 'is_big', ('var', s_))])
+            conj = rng.choice([('or', a1, ('and', first, a2)), ('and', a1, ('not', ('and', first, a2))),
+                               ('or', ('and', first, a2), a1)])
+            base['sel'] = [('var', v) for v in ids_]
+            report.count('template_negated_conjunction_under_outer_bindings')
         for tag, c in (('p', conj), ('n', ('not', conj)), ('nn', ('not', ('not', conj)))):
             v = dict(base)
             v['id'] = f'c{i}{tag}'
@@ -105,6 +121,11 @@ def c19(report, rng, tier, findings):
             if rng.random() < 0.3:
                 cont = ('attr', 'items', ('var', v0))          # the object's own (possibly empty) collection
             mem = ('in', ('attr', 'b', ('var', v0)), cont) if rng.random() < 0.7 else ('contains', cont, ('attr', 'b', ('var', v0)))
+            if rng.random() < 0.3:
+                # STRING containment, the empty string included on either side ('' in '' is True)
+                sub = ('lit', rng.choice([('s',), ('s',), ('s', 'a'), ('s', 'b')]))
+                cs = ('attr', 's', ('var', v0))
+                mem = rng.choice([('in', sub, cs), ('contains', cs, sub), ('in', cs, cs)])
             if rng.random() < 0.35:
                 mem = ('not', mem)
             g_ = gen.CondGen(rng, cfg, [v[0] for v in case['vars']])
@@ -219,10 +240,21 @@ def c15(report, rng, tier, findings):
             def join():
                 return ('cmp', rng.choice(('eq', 'ne', 'lt', 'ge')), ('attr', rng.choice('ab'), ('var', v)),
                         ('attr', rng.choice('ab'), ('var', w)))
-            inner = ('and', join(), gv.atom()) if rng.random() < 0.7 else join()
-            left = ('and', ('sub', (('var', v),), inner), rng.choice([gv.atom(), ('sub', (('var', v),), gv.atom())]))
-            right = rng.choice([join(), ('and', join(), gw.atom()), gvw.atom()])
-            base['cond'] = [('or', left, right) if rng.random() < 0.8 else ('or', right, left)]
+            if rng.random() < 0.6:
+                inner = ('and', join(), gv.atom()) if rng.random() < 0.7 else join()
+                left = ('and', ('sub', (('var', v),), inner), rng.choice([gv.atom(), ('sub', (('var', v),), gv.atom())]))
+                right = rng.choice([join(), ('and', join(), gw.atom()), gvw.atom()])
+                base['cond'] = [('or', left, right) if rng.random() < 0.8 else ('or', right, left)]
+            else:
+                # the sub-query is the LEFT operand of & / |; it contains a disjunction (resp. a conjunction) that binds
+                # w, which it does not select, and the right operand depends on w
+                if rng.random() < 0.6:
+                    inner = rng.choice([('or', join(), gv.atom()), ('or', gv.atom(), join()), ('or', join(), join())])
+                    base['cond'] = [('and', ('sub', (('var', v),), inner), rng.choice([gw.atom(), join()]))]
+                else:
+                    inner = ('and', join(), gv.atom())
+                    base['cond'] = [('or', ('sub', (('var', v),), inner), rng.choice([gw.atom(), join(),
+                                                                                       ('sub', (('var', v),), join())]))]
             base['sel'] = [('var', v)] if rng.random() < 0.6 else [('var', v), ('var', w)]
             base['entity'] = len(base['sel']) == 1
         elif r_ < 0.8:
@@ -386,7 +418,7 @@ def c18(report, rng, tier, findings):
         cfg = gen.Cfg(n_vars=(nv, nv), n_objs=(2, 4 if nv < 3 else 3), depth=3 if nv < 3 else 2, empty_domain=0.0,
                       select_all=0.3, single_top=0.4)
         base = gen.gen_case(rng, cfg, f'c{i}')
-        if nv >= 2 and rng.random() < 0.12:
+        if nv >= 2 and rng.random() < 0.25:
             gen.apply_or_template(rng, cfg, base)
             report.count('template_disjunction_binds_unselected_variable')
         if len(base['sel']) == 1:
@@ -538,7 +570,7 @@ def c09(report, rng, tier, findings):
                 continue
         cases.append(case)
     report.rule = ("random an/the queries that use @predicate functions and Predicate subclasses (with negation, conjunction, "
-                   "disjunction), each evaluated OUTSIDE any block, inside symbolic_mode() and inside rule_mode(), caching on and "
+                   "disjunction), each evaluated OUTSIDE any block, inside symbolic_mode(), inside rule_mode(), and with the result iterator started outside a block and continued inside one of either kind, caching on and "
                    "off, twice; every outcome is compared with the oracle (so the three ambient modes agree with each other); "
                    "40% take the first variable's domain from a sub-query, 25% declare it without a domain by keywords only "
                    "(constraints attached lazily during evaluation), in 35% every predicate body runs a nested evaluate() and "
@@ -554,7 +586,8 @@ def c09(report, rng, tier, findings):
                      else 'plain_domain')
         if c.get('nested_eval'):
             report.count('predicate_bodies_run_a_nested_evaluation')
-    run_query_cases(report, cases, {'caching': (False, True), 'evals': 2, 'ambients': (None, 'query', 'rule')}, judge)
+    run_query_cases(report, cases, {'caching': (False, True), 'evals': 2,
+                                    'ambients': (None, 'query', 'rule', 'split:query', 'split:rule')}, judge)
     return ['EqlModel.Props.C09', 'EqlModel.Props.C08'], [
         "the mode is read only by the patched constructors / predicate wrappers (hybrid_new, predicate.wrapper)",
         "single thread"]
@@ -602,8 +635,16 @@ def c16(report, rng, tier, findings):
         r = rng.random()
         pc = ('cmp', rng.choice(('gt', 'le', 'eq', 'ne')), ('attr', 'a', P), ('lit', ('i', rng.randint(0, 3))))
         ec = ('cmp', rng.choice(('gt', 'le', 'eq', 'ne', 'lt', 'ge')), E, ('lit', ('i', rng.randint(0, 4))))
-        if r < 0.25:
+        pe = ('cmp', rng.choice(('lt', 'le', 'eq', 'ne', 'gt', 'ge')), ('attr', 'a', P), E)
+        if rng.random() < 0.5:
+            pe = ('cmp', MIRROR_OP[pe[1]], E, ('attr', 'a', P))
+        if rng.random() < 0.25:
+            pe = rng.choice([('in', E, ('attr', 't', P)), ('contains', ('attr', 't', P), E), ('not', ('in', E, ('attr', 't', P)))])
+        if r < 0.2:
             conds = []
+        elif r < 0.3:
+            # the element compared with an attribute of ITS OWN parent (both operands symbolic, one variable)
+            conds = [rng.choice([pe, ('and', pc, pe), ('and', pe, pc)])]
         elif r < 0.45:
             conds = [pc]
         elif r < 0.7:
@@ -641,7 +682,7 @@ def c16(report, rng, tier, findings):
             report.count('after_an_abandoned_evaluation')
     report.rule = ("1-5 parents whose inner collections are empty, overlapping, scalar (non-iterable) or carry repeated / falsy "
                    "elements; flatten(p.items) selected alone, with the parent (either order); no condition, a condition on the "
-                   "parent, on the element, both, or a disjunction on the element; 40% of the cases are evaluated after an "
+                   "parent, on the element, both, a disjunction on the element, or a comparison / membership test between the element and an attribute of its own parent; 40% of the cases are evaluated after an "
                    "evaluation of the same query that was abandoned after 1-4 rows; rows compared with the UNNEST oracle as a multiset "
                    "when parent and element are selected and no collection repeats an element, as a set otherwise; non-trivial = at "
                    "least two parents with non-empty collections; 30% of the cases have a second variable joined (or not) with the "
@@ -872,9 +913,27 @@ def c10(report, rng, tier, findings):
         shape = rng.choice(('single',) * 6 + ('two_same', 'two_same', 'nested', 'nested', 'fa_first', 'free_after'))
         case['fa_shape'] = shape
         if shape == 'single':
-            if rng.random() < 0.4:
+            r_u = rng.random()
+            if r_u < 0.35:
                 case['forall_expr'] = rng.choice([('attr', 'b', ('var', u)), ('attr', 'a', ('var', u)),
                                                   ('attr', 'ref', ('var', u)), ('attr', 'flag', ('var', u))])
+            elif r_u < 0.6:
+                # the universal variable is a CONSTRAINED variable, written in predicate form A(From(d), a=k): it ranges
+                # over the members of d with a == k (kept non-empty); the explicit twin ranges over exactly those
+                objs_by = {j: at for j, _, at in base['objs']}
+                vals = sorted({objs_by[o[1]]['a'] for o in uraw}, key=repr)
+                kval = rng.choice(vals)
+                keep = [o for o in uraw if objs_by[o[1]]['a'] == kval]
+                twin = dict(case)
+                twin['vars'] = [v if v[0] != u else (u, 'A', keep) for v in case['vars']]
+                if not case.get('cond') and rng.random() < 0.7:
+                    # ... usually after a conjunct that binds the free variables
+                    cnd = [gen.CondGen(rng, cfg, free_ids).cond(rng.randint(0, 1))]
+                    case['cond'] = cnd
+                    twin['cond'] = cnd
+                case['pform'] = {u: {'pos': [], 'kw': [('a', ('lit', kval))]}}
+                case['explicit'] = twin
+                report.count('universal_variable_in_predicate_form')
         else:
             # several for_all conjuncts / a for_all whose condition is a for_all / the for_all written first
             del case['forall']
@@ -950,6 +1009,12 @@ def c13(report, rng, tier, findings):
         base['vars'] = [(vid, rng.choice(classes),
                          rng.sample(all_objs, len(all_objs) if rng.random() < 0.5 else rng.randint(0, len(all_objs))))
                         for vid, _, _ in base['vars']]
+        if rng.random() < 0.3:
+            # some subclasses are NOT decorated with @symbol (they inherit the machinery of their decorated ancestor)
+            subs = [c for c, b_ in base['classes'] if b_ != '-']
+            if subs:
+                base['undecorated'] = rng.sample(subs, rng.randint(1, len(subs)))
+                report.count('undecorated_subclasses')
         if len(base['vars']) == 2 and rng.random() < 0.35:
             # both variables range over the SAME collection, given as one shared From(...) object
             v0_, v1_ = base['vars']
@@ -1143,6 +1208,9 @@ def c04(report, rng, tier, findings):
             k = rng.randint(1, len(ids)) if empty_var is None else len(ids)
             sel = [('var', v) for v in rng.sample(ids, k)]
             pool.append({'sel': sel, 'cond': cond})
+        if empty_var is None and rng.random() < 0.2:
+            # a query that aggregates the objects' own list attributes (the user's lists must stay what they are)
+            pool.append({'sel': [('concat', 300, ('attr', 'items', ('var', ids[0])))], 'cond': []})
         hist = []
         for _ in range(rng.randint(2, 6 if tier == 'quick' else 10)):
             qi = rng.randrange(len(pool))
